@@ -142,10 +142,21 @@ def run_for(pid, tree, base_rep=None, jobs=None, only=None):
     if not only and not os.environ.get("VERIF_NO_CORPUS"):
         import glob
         from .core import VERIF
-        for dp in sorted(glob.glob(os.path.join(VERIF, "seeded", "refactors", "*.diff"))):
+        import json
+        limits = {}
+        lp = os.path.join(VERIF, "seeded", "refactors_round3", "KNOWN_LIMITS.json")
+        if os.path.exists(lp):
+            with open(lp, encoding="utf-8") as fh:
+                limits = json.load(fh).get("limits", {})
+        for dp in sorted(glob.glob(os.path.join(VERIF, "seeded", "refactors", "*.diff"))) + \
+                sorted(glob.glob(os.path.join(VERIF, "seeded", "refactors_round3", "*.diff"))):
+            r3 = os.path.basename(os.path.dirname(dp)) == "refactors_round3"
+            base_name = os.path.basename(dp)[:-5]
+            if r3 and pid in limits.get(base_name, {}).get("properties", []):
+                continue            # a measured limit of this property's recognisers (listed with its reason), not a regression
             with open(dp, encoding="utf-8") as fh:
                 files = apply_unified_diff(tree.files, fh.read())
-            name = "corpus:" + os.path.basename(dp)[:-5]
+            name = ("corpus3:" if r3 else "corpus:") + base_name
             if files is None:
                 stale.append(name)
                 continue
